@@ -10,7 +10,8 @@
 //	   chunk = hex string | {"rep":hex,"n":count}
 //	   -> {"runs":[{"split":i,"mode":m,"status":int,"recs":[...],"cerr":text,"req":{...}}...]}
 //	{"op":"parse","model":name,"texts":[hex,...]} -> {"res":[{"ok":bool,"calls":[{"name":hex,"args":hex}]}...]}
-//	{"op":"client","status":int,"lines":[{"kind":"msg"|"done"|"error"|"garbage","len":n,"nl":bool}...],"chat":bool}
+//	{"op":"client","status":int,"lines":[{"kind":"msg"|"done"|"error"|"garbage","len":n,"nl":bool}...],
+//	 "cut":{"lines":k,"extra":m,"framing":"chunked"|"length"}}   (cut: transport fault, see doClient)
 //	   -> {"got":[{"done":bool,"len":n}...],"cerr":text}      (the real api.Client against scripted response lines)
 package main
 
@@ -645,6 +646,7 @@ func doParse(c map[string]any) any {
 func doClient(c map[string]any) any {
 	status := hx.Int(c["status"])
 	var body bytes.Buffer
+	var all []string
 	lines, _ := c["lines"].([]any)
 	for _, l := range lines {
 		lm := l.(map[string]any)
@@ -667,15 +669,53 @@ func doClient(c map[string]any) any {
 		default:
 			line = pad(`{"model":`, ``)
 		}
+		all = append(all, line)
 		body.WriteString(line)
 		if nl, ok := lm["nl"].(bool); !ok || nl {
 			body.WriteByte('\n')
 		}
 	}
+	// transport fault: "cut": {"lines": k, "extra": m, "framing": "chunked"|"length"}: the server sends the first k lines
+	// completely, then m bytes of line k (m = -1: its whole content without the newline), and the connection is closed
+	// without the end of the body (no terminating chunk / fewer bytes than Content-Length).  k = len(lines), m = 0: everything
+	// was sent, only the end-of-body marker is missing.
+	cut, hasCut := c["cut"].(map[string]any)
 	srv := httptest.NewServer(http.HandlerFunc(func(w http.ResponseWriter, r *http.Request) {
-		w.Header().Set("Content-Type", "application/x-ndjson")
-		w.WriteHeader(status)
-		w.Write(body.Bytes())
+		if !hasCut {
+			w.Header().Set("Content-Type", "application/x-ndjson")
+			w.WriteHeader(status)
+			w.Write(body.Bytes())
+			return
+		}
+		k, m := hx.Int(cut["lines"]), hx.Int(cut["extra"])
+		var parts []string
+		for i := 0; i < k && i < len(all); i++ {
+			parts = append(parts, all[i]+"\n")
+		}
+		if k < len(all) && m != 0 {
+			if m < 0 || m > len(all[k]) {
+				m = len(all[k])
+			}
+			parts = append(parts, all[k][:m])
+		}
+		conn, bufrw, err := w.(http.Hijacker).Hijack()
+		if err != nil {
+			panic(err)
+		}
+		defer conn.Close()
+		fmt.Fprintf(bufrw, "HTTP/1.1 %d %s\r\nContent-Type: application/x-ndjson\r\n", status, http.StatusText(status))
+		if cut["framing"] == "length" {
+			fmt.Fprintf(bufrw, "Content-Length: %d\r\n\r\n", body.Len()+1)
+			for _, p := range parts {
+				bufrw.WriteString(p)
+			}
+		} else {
+			bufrw.WriteString("Transfer-Encoding: chunked\r\n\r\n")
+			for _, p := range parts {
+				fmt.Fprintf(bufrw, "%x\r\n%s\r\n", len(p), p)
+			}
+		}
+		bufrw.Flush()
 	}))
 	defer srv.Close()
 	u, _ := url.Parse(srv.URL)
